@@ -41,7 +41,7 @@ def run_property(prop, tier, report):
         cov["traces_validated_against_impl"] = summary["interfaces"] + summary["worlds"]
         cov["interfaces"] = summary["interfaces"]
         cov["worlds"] = summary["worlds"]
-        cov["rule"] = ("31 declaration packages (every value-type constructor in parameter and result position, aliases of aliases, "
+        cov["rule"] = (f"{summary['packages']} declaration packages (every value-type constructor in parameter and result position and nested in every other constructor, aliases of aliases, "
                        "resources with constructor/methods/statics and own/borrow, `use` chains, renames and diamonds incl. "
                        "resources, worlds with named/inline/function imports and exports, include with renames and chains, "
                        "versioned packages; every interface also as import/export of generated worlds): Decl.tla elaborates each "
@@ -54,7 +54,7 @@ def run_property(prop, tier, report):
         cov["traces_validated_against_impl"] = summary["components"]
         cov["components"] = summary["components"]
         cov["dependency_type_checks"] = summary["dep_checks"]
-        cov["rule"] = ("292 components: one real component (dummy module + ComponentEncoder) per world of the declaration "
+        cov["rule"] = (f"{summary['components']} components: one real component (dummy module + ComponentEncoder) per world of the declaration "
                        "universe, every kind of the C07 type universe as an import (incl. core module and component types), and "
                        "the packages of the six graph libraries: Package::from_bytes must list imports and exports in order with "
                        "the kinds the reference validator sees for the same bytes (canonical descriptions, resources by "
